@@ -47,8 +47,8 @@ DESCR = {
               "non-integer cost ratios whose rounded value is a binomial coefficient (e.g. wd=3.5, rd=2, uf=1): wrong period; every integer cost vector is unaffected"),
 }
 
-_p2 = os.path.join(HERE, "seed_descr2.json")
-if os.path.exists(_p2):
+import glob
+for _p2 in sorted(glob.glob(os.path.join(HERE, "seed_descr*.json"))):
     with open(_p2) as _f:
         DESCR.update({k: tuple(v) for k, v in json.load(_f).items()})
 
@@ -97,14 +97,15 @@ def main():
         f.write("# Seeded defects: which quick checks report what\n\n"
                 "`R` = VIOLATION with a concrete failing input (replay), `n` = VIOLATION … no-failing-input-found "
                 "(the model/implementation correspondence on that property's projection broke, but the property itself "
-                "was not seen to fail on the explored inputs), `.` = OK.  The column of the property the seed was written "
-                "against is marked with brackets.\n\n")
+                "was not seen to fail on the explored inputs), `.` = OK, blank = not run (round 3 was evaluated with the "
+                "check of its own property, plus the checks named in the text of DESIGN.md section 11).  The column of the property "
+                "the seed was written against is marked with brackets.\n\n")
         f.write("| seed | " + " | ".join(p[1:] for p in props) + " |\n|---|" + "---|" * len(props) + "\n")
         for m in rows:
             cells = []
             for p in props:
                 v = m["checks"].get(p, "?")
-                c = {"violation-with-replay": "R", "violation-no-input": "n", "ok": "."}.get(v, "E")
+                c = {"violation-with-replay": "R", "violation-no-input": "n", "ok": ".", "?": " "}.get(v, "E")
                 cells.append("[" + c + "]" if p == m["breaks_property"] else c)
             f.write("| %s | %s |\n" % (m["id"], " | ".join(cells)))
         f.write("\n")
